@@ -76,7 +76,7 @@ Example C01_simulation_nonvacuous :
   exists evs, run_src 200 p w = SFinished evs /\ (3 <= length evs)%nat.
 Proof. split; [vm_compute; reflexivity|]. eexists. split; [vm_compute; reflexivity|]. cbn. repeat constructor. Qed.
 
-(* ---- extended to conditionals, blocks and `repeat while` loops (Lang/Simulation2.v), nested to any depth ---- *)
+(* ---- extended to conditionals, blocks, `repeat while` and counted `repeat n` loops (Lang/Simulation2.v), nested to any depth ---- *)
 From Bardolph Require Import Lang.Simulation2.
 
 Theorem C01_loopfree_program_runs_as_its_source_says :
@@ -104,6 +104,8 @@ Example C01_loopfree_nonvacuous :
             SRepeat (LWhile (RExpr (EBin BGt (EVar "x") (ELit (LInt 0)))))
                     (SBlock [SPrint (Some (RVar "x")); SAssign "x" (RExpr (EBin BSub (EVar "x") (ELit (LInt 1))));
                              SRepeat (LWhile (RExpr (EBin BLt (EReg R_HUE) (ELit (LInt 5))))) (SReg R_HUE (RExpr (EBin BAdd (EReg R_HUE) (ELit (LInt 1)))))]);
+            SRepeat (LCount (RExpr (EBin BAdd (EVar "x") (ELit (LInt 2)))))
+                    (SBlock [SPrintln (Some (RReg R_HUE)); SRepeat (LCount (RLit (LInt 2))) (SOn OpAll)]);
             SSet OpAll] in
   let w := [mkLight "a" "g" "l" KPlain [0; 0; 0; 0]] in
   SimpleL (snd (collect p [] [])) p /\ exists evs, run_src 200 p w = SFinished evs /\ (5 <= length evs)%nat.
